@@ -38,7 +38,7 @@ def check(ctx):
             except Exception as e:  # noqa: BLE001
                 key = f"C15/oracle/{name}{'' if target is None else '-subblocks'}/{kind.split('[')[0]}"
                 ctx.fail("oracle", key, f"{name} (sub-block size {target}) raised {type(e).__name__}: {e} on matrix {kind}",
-                         replay={"matrix_kind": kind, "matrix": M.tolist(), "solver": name, "subblock": target, "threshold": thr}, has_input=True)
+                         replay={"matrix_kind": kind, "matrix": (M.tolist() if M.shape[0] <= 200 else "regenerate with the recorded seed (harness/gmat.py)"), "solver": name, "subblock": target, "threshold": thr}, has_input=True)
                 continue
             ok, msg = judge(E, M)
             if not ok:
@@ -48,4 +48,4 @@ def check(ctx):
                     # default rtol=1e-5 of one, which eigh_projector accepts as a unit eigenvalue (known finding)
                     key = "C15/large-subblocks/isclose-rtol"
                 ctx.fail("oracle", key, f"{name} (sub-block size {target}, threshold {thr}) on matrix {kind}: {msg}",
-                         replay={"matrix_kind": kind, "matrix": M.tolist(), "solver": name, "subblock": target, "threshold": thr}, has_input=True)
+                         replay={"matrix_kind": kind, "matrix": (M.tolist() if M.shape[0] <= 200 else "regenerate with the recorded seed (harness/gmat.py)"), "solver": name, "subblock": target, "threshold": thr}, has_input=True)
